@@ -1,0 +1,64 @@
+//go:build verif
+// +build verif
+
+package core
+
+import (
+	"sync"
+
+	context2 "github.com/oneconcern/datamon/pkg/context"
+	"github.com/oneconcern/datamon/pkg/model"
+	"go.uber.org/zap"
+)
+
+// Accessors for the verification harness. Not part of the regular build.
+
+// VerifMergeBatch is one split file list as received by the commit merger.
+type VerifMergeBatch struct {
+	SplitID string
+	Entries []model.BundleEntry
+}
+
+type verifNoIndex struct{}
+
+func (verifNoIndex) Next() (string, indexIterator) { return "", nil }
+
+// VerifMergeSplits runs the diamond commit merger on file lists handed over in the given order and returns
+// the entries it produces for the bundle, in output order.
+func VerifMergeSplits(stores context2.Stores, mode model.ConflictMode, batches []VerifMergeBatch) (out []model.BundleEntry, hasConflicts, hasCheckpoints bool, err error) {
+	d := NewDiamond("verif", stores, DiamondDescriptor(model.NewDiamondDescriptor(model.DiamondMode(mode))), DiamondLogger(zap.NewNop()))
+	idx := newFileIndex(stores, fileIndexPather(verifNoIndex{}), fileIndexLogger(zap.NewNop()))
+	for _, b := range batches {
+		idx.output <- bundleEntriesRes{bundleEntries: model.BundleEntries{BundleEntries: b.Entries}, id: b.SplitID}
+	}
+	d.splitIndexer = idx
+
+	filePackedC := make(chan filePacked)
+	errorC := make(chan errorHit)
+	doneOkC := make(chan struct{})
+	var wg sync.WaitGroup
+	wg.Add(1)
+	go d.mergeSplits(filePackedC, errorC, doneOkC, &wg)
+	for done := false; !done; {
+		select {
+		case f, ok := <-filePackedC:
+			if !ok {
+				done = true
+				break
+			}
+			out = append(out, model.BundleEntry{Hash: f.hash, NameWithPath: f.name, Size: f.size})
+		case e := <-errorC:
+			err = e.error
+			done = true
+		}
+	}
+	if err != nil {
+		// let the merger goroutines unwind
+		go func() {
+			for range filePackedC {
+			}
+		}()
+	}
+	wg.Wait()
+	return out, d.DiamondDescriptor.HasConflicts, d.DiamondDescriptor.HasCheckpoints, err
+}
